@@ -42,10 +42,11 @@ Proof. intros l. apply pair_reflexive; [apply bij_nil | intros a b H; discrimina
    writes (every function dump of every run is decoded and re-encoded by the extracted checker: the hypothesis
    `l1 = enc_func f1` is checked, not assumed); `run` is the evaluator of model/Sem.v, in which a local variable is a
    cell addressed by its VariableId (reads, writes through member / swizzle / subscript paths, compound assignment,
-   increments, copy-in / copy-out calls, sequencing, conditionals, loops with break / continue, return).
+   increments, copy-in / copy-out calls, sequencing, conditionals, loops with break / continue, switch with fall-through,
+   discard, return).
    If the dump of IR1 is the encoding of f1 and the comparison with the dump of IR2 succeeds, then the dump of IR2 is
-   the encoding of a function that returns the same value, copies the same values back through its out / inout
-   parameters and leaves everything that is not a local in the same state - for every fuel, every argument list,
+   the encoding of a function that is discarded in the same cases, returns the same value, copies the same values back
+   through its out / inout parameters and leaves everything that is not a local in the same state - for every fuel, every argument list,
    every outside state and every interpretation I of the operator, literal, conversion, accessor, callee and global
    words (those words are compared literally, so both functions use the same ones). *)
 Theorem C01_same_behaviour :
@@ -71,7 +72,8 @@ Definition zi : interp Z unit := {|
     | [a] => if String.eqb name "PostfixIncrement" then Some (a + 1)%Z else None
     | _ => None
     end;
-  dflt := fun _ => None; agg := fun _ _ => None |}.
+  dflt := fun _ => None; agg := fun _ _ => None;
+  case_match := fun l v => match l with ["ci"; n] => option_map (Z.eqb v) (parse_Z n) | _ => None end |}.
 
 Definition lit (n : string) : expr := ELeaf ["Lit"; "ci"; n].
 Definition ex_f (p q x : N) : func := {|
@@ -84,11 +86,26 @@ Definition ex_f (p q x : N) : func := {|
               SRet (EOp "Add" [ELoc x; ELoc q]) ] |}.
 
 Example C01_evaluator_example :
-  run zi 20 (ex_f 7 8 9) [Some 5%Z; Some 0%Z] tt = Some (Some 22%Z, [None; Some 12%Z], tt) /\
+  run zi 20 (ex_f 7 8 9) [Some 5%Z; Some 0%Z] tt = Some (false, Some 22%Z, [None; Some 12%Z], tt) /\
   pair [] 0 (enc_func (ex_f 7 8 9)) (enc_func (ex_f 1 2 3)) = Same [(9, 3); (8, 2); (7, 1)]%N /\
   rn_func [(9, 3); (8, 2); (7, 1)]%N (ex_f 7 8 9) = ex_f 1 2 3 /\
-  run zi 20 (ex_f 1 2 3) [Some 5%Z; Some 0%Z] tt = Some (Some 22%Z, [None; Some 12%Z], tt).
+  run zi 20 (ex_f 1 2 3) [Some 5%Z; Some 0%Z] tt = Some (false, Some 22%Z, [None; Some 12%Z], tt).
 Proof. vm_compute. repeat split. Qed.
+
+(* switch with fall-through: `int h(int p) { int r = 0; switch (p) { case 1: r = 10; case 2: r += 1; break; default: r = 7; } return r; }` *)
+Definition ex_h (p r : N) : func := {|
+  f_ret := ["ts"; "i"];
+  f_params := [(p, "0", ["ts"; "i"], None)];
+  f_body := [ SVar (r, ["Local"; "ts"; "i"], IExp (lit "0"));
+              SSwitch (ELoc p) [ SWord ["SCase"; "ci"; "1"]; SExpr (EOp "Assignment" [ELoc r; lit "10"]);
+                                 SWord ["SCase"; "ci"; "2"]; SExpr (EOp "SumAssignment" [ELoc r; lit "1"]); SWord ["SBreak"];
+                                 SWord ["SDefault"]; SExpr (EOp "Assignment" [ELoc r; lit "7"]) ];
+              SRet (ELoc r) ] |}.
+
+Example C01_switch_example :
+  map (fun a => run zi 20 (ex_h 4 5) [Some a] tt) [1; 2; 5]%Z =
+  [Some (false, Some 11%Z, [None], tt); Some (false, Some 1%Z, [None], tt); Some (false, Some 7%Z, [None], tt)].
+Proof. vm_compute. reflexivity. Qed.
 
 (* ---- non-vacuity: `int x = p; return x + 1;` against the same with other ids; against `x - 1`; against a swapped use ---- *)
 Definition ex_a := [W "F"; Id 7; W "SVar"; Id 9; W "IE"; W "Loc"; Id 7; W "SRet"; W "Op"; W "Add"; W "Loc"; Id 9; W "Lit"; W "ci"; W "1"].
